@@ -25,6 +25,8 @@ pub enum Event {
     ThunkSwitch { id: u64, from: u8, to: u8 },
     /// `ThunkData::set_done`; `was` is the state it was in.
     ThunkDone { id: u64, was: u8 },
+    /// `ThunkData::restore_pending` (a failed request puts the thunk back)
+    ThunkRestore { id: u64 },
     /// `push_trace_item`
     FramePush { frames: usize },
     /// `delay_trace_item`
